@@ -1,4 +1,6 @@
 """C05 — condition variables: atomic release-and-wait, signal and broadcast reach waiters."""
+import os
+
 import common
 from props import sched_common
 
@@ -16,6 +18,8 @@ def run(res):
     n = 300 if res.tier == "quick" else 3000
     sched_common.campaign(res, "C05", "cond_prog", variants(res.seed), n, ["cond", "mutex"],
                           workers_note=", W in 1..3 workers; bounded buffer (signal), gate (broadcast), turnstile (broadcast) and token programs (signal issued outside the mutex) with <= 4 waiters")
+    if not res.violations:
+        sched_common.free_stress(res, "C05", "cond", [(4, 6, 3000, 2), (2, 4, 4000, 1), (8, 8, 1500, 0), (3, 5, 3000, 3), (1, 4, 2000, 1)])
     if res.breaks and not res.violations:
         sched_common.search_more(res, "C05", "cond_prog", variants(res.seed + 1), 400)
     res.assumptions += [
@@ -26,4 +30,6 @@ def run(res):
 
 
 def replay(path):
+    if os.path.isfile(path) and path.endswith("stress.txt") and open(path).readline().startswith("sync_stress_prog"):
+        return sched_common.replay_stress("C05", path)
     return sched_common.replay("C05", path)
